@@ -236,7 +236,7 @@ var pintComments = []string{
 }
 
 var tokens = []string{"~", "1", "true", "[]", "{}", `""`, "|", ">-", "*a", "&a x", "!!binary x", "<<", `"\x75p{job=~\"x\"}"`, `"a\tb"`, `'it''s'`, `"\u00e9 > 0"`, `"up == 0 \
-    or up == 1"`}
+    or up == 1"`, `"a\nb\nc"`, `"groups:\n- name: g\n  rules:\n  - record: r\n    expr: up\n"`}
 
 func seedBody(c *explore.Chooser) *explore.Case {
 	mi := c.Free(2, "mode") // strict / relaxed, prometheus schema
@@ -349,6 +349,9 @@ func seedBody(c *explore.Chooser) *explore.Case {
 		off := c.Free(len(seed), "offset")
 		text = seed[:off] + seed[off+1:]
 		what = fmt.Sprintf("delete @%d", off)
+	}
+	if class >= 1 && class <= 3 && c.Free(2, "final-newline") == 1 {
+		text, what = strings.TrimSuffix(text, "\n"), what+" no-final-newline"
 	}
 	cs := &explore.Case{Input: map[string]any{"seed": si, "mutation": what, "file": text, "mode": modes[mi].String()}, Key: modes[mi].String() + text}
 	verdict(text, modes[mi], cs)
